@@ -243,6 +243,14 @@ func (f *forest) randomOrder(rng *rand.Rand) [][]string {
 	return acc
 }
 
+func mustClient(s *Scenario) resolve.Client {
+	cl, err := s.client()
+	if err != nil {
+		panic(err)
+	}
+	return cl
+}
+
 // ---- one run ----
 
 type fanRun struct {
@@ -253,6 +261,7 @@ type fanRun struct {
 	Stuck    string // controller could not realise the schedule / run did not finish
 	Panic    string
 	Unsorted string
+	Lost     bool // an attempt goroutine exists that the profile run never received
 }
 
 var fanoutMu sync.Mutex // the RecvHook is process-global: one ComputePatches at a time
@@ -303,7 +312,8 @@ func (s *Scenario) fanoutRun(ctx context.Context, path string, order [][]string,
 			}
 			ctl.mu.Lock()
 			if len(ctl.seen) > len(expected) {
-				out.Stuck = fmt.Sprintf("step %d: %d attempts reached a callback but the profile run knows only %d by now", step, len(ctl.seen), len(expected))
+				out.Stuck = fmt.Sprintf("step %d: %d attempts were started but the ungated run received only %d by this point: an attempt is started whose result ComputePatches never receives", step, len(ctl.seen), len(expected))
+				out.Lost = true
 				ctl.mu.Unlock()
 				break
 			}
@@ -442,6 +452,23 @@ func runFanout(e *Env, idx int, c *fanCase) (*fanOut, error) {
 		out.Mismatch = "profile run: " + err.Error()
 		return out, nil
 	}
+	// every initially found vulnerability gets its own attempt, and ComputePatches must have received each of them
+	an, aerr := verifhooks.RemAnalyse(ctx, path, &parkClient{Client: mustClient(s), mu: &sync.Mutex{}}, newMatcher(s), s.remOpts(false))
+	if aerr == nil {
+		got := map[string]bool{}
+		for _, a := range prof.Recv {
+			if len(a) == 1 {
+				got[a[0]] = true
+			}
+		}
+		for _, id := range an.VulnIDs {
+			if !got[id] {
+				out.Attempts = prof.Recv
+				out.Mismatch = fmt.Sprintf("ComputePatches returned without receiving the attempt for initial vulnerability %s (received: %v)", id, prof.Recv)
+				return out, nil
+			}
+		}
+	}
 	out.Attempts = f.all
 	out.Roots = len(f.roots)
 	out.Spawned = len(f.all) - len(f.roots)
@@ -494,6 +521,8 @@ func runFanout(e *Env, idx int, c *fanCase) (*fanOut, error) {
 		switch {
 		case r.Panic != "":
 			out.Mismatch, out.BadOrder = "ComputePatches panicked: "+r.Panic, o
+		case r.Lost:
+			out.Mismatch, out.BadOrder = r.Stuck, o
 		case r.Stuck != "" && strings.Contains(r.Stuck, "did not return"):
 			out.Mismatch, out.BadOrder = "ComputePatches did not return under this arrival order (twice): "+r.Stuck, o
 		case r.Stuck != "":
